@@ -38,6 +38,15 @@ func init() {
 			}
 			x.Comment("store/store.go " + fn)
 			x.Raw("def " + name + " : List (String × String) := [\n  " + strings.Join(parts, ",\n  ") + "]")
+			// the skeleton: only what bears on leadership / level / freshness decisions, so that
+			// unrelated guards (nil checks, pragma check, compression errors, throttling) can
+			// come and go without touching the proof obligations
+			parts = nil
+			for _, t := range rpSkeleton(toks) {
+				parts = append(parts, "("+LeanStr(t.k)+", "+LeanStr(t.v)+")")
+			}
+			x.Comment("store/store.go " + fn + " (skeleton)")
+			x.Raw("def " + name + "Skel : List (String × String) := [\n  " + strings.Join(parts, ",\n  ") + "]")
 		}
 		emit("waitLin", "Store", "waitForLinearizableRead")
 		emit("fsmWaitIndex", "Store", "fsmWaitIndex")
@@ -47,6 +56,26 @@ func init() {
 		emit("storeIsStaleRead", "Store", "isStaleRead")
 		emit("isStaleReadFn", "", "IsStaleRead")
 		emit("fsmApply", "Store", "fsmApply")
+
+		// every write of strongReadTerm in package store: "<Func>: <call source>", sorted
+		var stores []string
+		for _, f := range x.Pkg("store") {
+			for _, d := range f.Decls {
+				fd, ok := d.(*ast.FuncDecl)
+				if !ok || fd.Body == nil {
+					continue
+				}
+				ast.Inspect(fd.Body, func(m ast.Node) bool {
+					if c, ok := m.(*ast.CallExpr); ok && x.Src(c.Fun) == "s.strongReadTerm.Store" {
+						stores = append(stores, fd.Name.Name+": "+x.Src(c))
+					}
+					return true
+				})
+			}
+		}
+		sort.Strings(stores)
+		x.Comment("store/*.go: every call of s.strongReadTerm.Store")
+		x.DefStrings("strongReadTermStores", stores)
 	})
 }
 
@@ -176,4 +205,107 @@ func rpStmt(x *X, st ast.Stmt) []rpTok {
 		out = append(out, rpCalls(x, st)...)
 	}
 	return out
+}
+
+// ---- skeleton filter ------------------------------------------------------------
+
+var rpRelevantCalls = map[string]bool{
+	"s.IsVoter": true, "s.raft.CurrentTerm": true, "s.waitForLinearizableRead": true, "s.raft.State": true,
+	"s.Ready": true, "s.raft.Apply": true, "s.execute": true, "s.strongReadTerm.Store": true,
+	"s.strongReadTerm.Load": true, "s.isStaleRead": true, "s.db.QueryWithContext": true, "s.RORWCount": true,
+	"s.raft.CommitIndex": true, "s.VerifyLeader": true, "s.fsmWaitIndex": true, "s.fsmTarget.Subscribe": true,
+	"s.raft.LastContact": true, "s.fsmUpdateTime.Load": true, "s.appendedAtTime.Load": true, "s.fsmIdx.Load": true,
+	"s.raftTn.CommandCommitIndex": true, "IsStaleRead": true,
+}
+
+var rpRelevantCond = []string{"Level", "isLeader", "raft.State", "Ready()", "isStaleRead", "nRW", "nRO",
+	"ErrStrongReadNeeded", "strongReadTerm", "CurrentTerm", "raft.ErrNotLeader", "raft.ErrLeadershipLost", "raft.Leader"}
+
+func rpCondRelevant(c string) bool {
+	for _, k := range rpRelevantCond {
+		if strings.Contains(c, k) {
+			return true
+		}
+	}
+	return false
+}
+
+type rpNode struct {
+	tok      rpTok
+	block    bool
+	children []*rpNode
+}
+
+// rpParse rebuilds the block structure of a flat token list.
+func rpParse(toks []rpTok, i int) ([]*rpNode, int) {
+	var out []*rpNode
+	for i < len(toks) {
+		t := toks[i]
+		switch t.k {
+		case "if", "for", "select", "defer":
+			if t.k == "defer" && t.v != "" {
+				out = append(out, &rpNode{tok: t})
+				i++
+				continue
+			}
+			kids, j := rpParse(toks, i+1)
+			out = append(out, &rpNode{tok: t, block: true, children: kids})
+			i = j + 1 // skip "end"
+		case "end":
+			return out, i
+		default:
+			out = append(out, &rpNode{tok: t})
+			i++
+		}
+	}
+	return out, i
+}
+
+func rpHasRelevant(ns []*rpNode) bool {
+	for _, n := range ns {
+		if n.block {
+			if rpCondRelevant(n.tok.v) || rpHasRelevant(n.children) {
+				return true
+			}
+		} else if n.tok.k == "call" && rpRelevantCalls[n.tok.v] {
+			return true
+		}
+	}
+	return false
+}
+
+func rpFilter(ns []*rpNode, top bool) []rpTok {
+	var out []rpTok
+	prevRelevantCall := false
+	for _, n := range ns {
+		if n.block {
+			keep := rpCondRelevant(n.tok.v) || rpHasRelevant(n.children) || prevRelevantCall
+			prevRelevantCall = false
+			if !keep {
+				continue
+			}
+			out = append(out, n.tok)
+			out = append(out, rpFilter(n.children, false)...)
+			out = append(out, rpTok{"end", ""})
+			continue
+		}
+		switch n.tok.k {
+		case "call":
+			if rpRelevantCalls[n.tok.v] {
+				out = append(out, n.tok)
+				prevRelevantCall = true
+			}
+		case "ret", "else", "case":
+			out = append(out, n.tok)
+			prevRelevantCall = false
+		default:
+			prevRelevantCall = false
+		}
+	}
+	return out
+}
+
+func rpSkeleton(toks []rpTok) []rpTok {
+	ns, _ := rpParse(toks, 0)
+	return rpFilter(ns, true)
 }
